@@ -219,3 +219,99 @@ func (e *exprState) call(c *ssa.Call, result int, fr *exprFrame, depth int) stri
 	}
 	return name + "(" + strings.Join(parts, ",") + ")"
 }
+
+// commutative operations of the rendering: their operands are sorted by CanonExpr.
+var commutativeOps = map[string]bool{"Int.Add": true, "Int.Mul": true, "Dec.Add": true, "Dec.Mul": true, "Uint.Add": true, "Uint.Mul": true,
+	"Coins.Add": false, "MaxInt": true, "MinInt": true}
+
+// CanonExpr rewrites a rendered expression so that the operands of commutative operations (Int.Add,
+// Int.Mul, Dec.Add, Dec.Mul, MaxInt, MinInt, and the binary + and *) appear in sorted order: a.Add(b) and
+// b.Add(a) get one normal form.
+func CanonExpr(s string) string {
+	out, rest := canonParse(s)
+	if rest != "" {
+		return s
+	}
+	return out
+}
+
+// canonParse parses one expression from the front of s and returns its canonical text and the remainder.
+func canonParse(s string) (string, string) {
+	if s == "" {
+		return "", ""
+	}
+	if s[0] == '(' {
+		// (a op b)
+		a, rest := canonParse(s[1:])
+		if rest == "" {
+			return s, ""
+		}
+		// operator: up to the start of the next operand
+		i := 0
+		for i < len(rest) && strings.ContainsRune("+-*/%<>=!&|^", rune(rest[i])) {
+			i++
+		}
+		if i == 0 {
+			if rest[0] == ')' {
+				return "(" + a + ")", rest[1:]
+			}
+			return s, ""
+		}
+		op := rest[:i]
+		b, rest2 := canonParse(rest[i:])
+		if rest2 == "" || rest2[0] != ')' {
+			return s, ""
+		}
+		if (op == "+" || op == "*") && b < a {
+			a, b = b, a
+		}
+		return "(" + a + op + b + ")", rest2[1:]
+	}
+	// a name, optionally followed by an argument list
+	i := 0
+	depthBr := 0
+	for i < len(s) {
+		ch := s[i]
+		if ch == '[' {
+			depthBr++
+		} else if ch == ']' {
+			depthBr--
+		} else if depthBr == 0 && (ch == '(' || ch == ')' || ch == ',' || strings.ContainsRune("+-*/%<>=!&|^", rune(ch))) {
+			// '-' and friends inside a name (negative constants, "->") are kept when they start the token
+			if !(i == 0 && ch == '-') {
+				break
+			}
+		}
+		i++
+	}
+	name := s[:i]
+	rest := s[i:]
+	if rest == "" || rest[0] != '(' {
+		return name, rest
+	}
+	rest = rest[1:]
+	var args []string
+	if rest != "" && rest[0] == ')' {
+		return name + "()", rest[1:]
+	}
+	for {
+		a, r := canonParse(rest)
+		args = append(args, a)
+		if r == "" {
+			return s, ""
+		}
+		if r[0] == ',' {
+			rest = r[1:]
+			continue
+		}
+		if r[0] == ')' {
+			rest = r[1:]
+			break
+		}
+		return s, ""
+	}
+	if commutativeOps[name] && len(args) == 2 && args[1] < args[0] {
+		args[0], args[1] = args[1], args[0]
+	}
+	return name + "(" + strings.Join(args, ",") + ")", rest
+}
